@@ -104,6 +104,26 @@ class HTTP(BaseComponent):
 
         self._uri = parse_url(url)
 
+    def _next_chunk(self, res):
+        """The next chunk of a streamed body that is not empty, None at its end"""
+        try:
+            data = next(res.body)
+            while not data:  # an empty chunk would end a chunked body
+                data = next(res.body)
+        except StopIteration:
+            return None
+        except Exception:
+            # The headers have gone out: the only way left to tell the client
+            # that the body is not complete is to end the connection.
+            sock = res.request.sock
+            res.done = True
+            self._mark_closing(sock)
+            self.fire(close(sock))
+            if sock in self._clients:
+                del self._clients[sock]
+            raise
+        return data
+
     @handler('stream')  # noqa
     def _on_stream(self, res, data):
         sock = res.request.sock
@@ -124,13 +144,7 @@ class HTTP(BaseComponent):
             self.fire(write(sock, data))
 
             if res.body and not res.done:
-                try:
-                    data = next(res.body)
-                    while not data:  # Skip over any null byte sequences
-                        data = next(res.body)
-                except StopIteration:
-                    data = None
-                self.fire(stream(res, data))
+                self.fire(stream(res, self._next_chunk(res)))
         else:
             if res.body and hasattr(res.body, 'close'):
                 res.body.close()
@@ -178,13 +192,7 @@ class HTTP(BaseComponent):
             res.done = True
             return
         if res.stream and res.body and hasattr(res.body, '__next__'):
-            try:
-                data = next(res.body)
-                while not data:  # an empty chunk would end a chunked body
-                    data = next(res.body)
-            except StopIteration:
-                data = None
-            self.fire(stream(res, data))
+            self.fire(stream(res, self._next_chunk(res)))
         else:
             # (also with streaming switched on if there is nothing to pull
             # chunks from: an empty body, a str, bytes or a list)
